@@ -372,20 +372,25 @@ pub extern "C" fn cs_final_rcu2() {
     cover(13);
 }
 
-/// adversary for C08: each call is one complete write of another value
+/// adversary for C08 (native replay only): each call is one complete write of a value the reader
+/// has not seen for the last 15 writes, so nothing it published is paid or confirmed by coincidence
 #[no_mangle]
 pub extern "C" fn cs_adv_store() {
     static TURN: HAtomic = HAtomic::new(0);
+    static ADV: [SCell<Option<VPtr>>; 16] = [NOV; 16];
     let k = TURN.peek();
-    TURN.store_ungated(1 - k);
-    a().store(pool(1 + k).clone());
+    TURN.store_ungated((k + 1) % 16);
+    if ADV[k].get().is_none() {
+        *ADV[k].mu() = Some(VPtr::adopt(&ADV_OBJS[k], 100 + k as u64));
+    }
+    a().store(ADV[k].get().as_ref().unwrap().clone());
 }
 /// reader bodies for C08 (need cs_setup_pool): one load / one load_full
 #[no_mangle]
 pub extern "C" fn cs_r_load_only() {
     let g = a().load();
     merge();
-    check_payload(&g, 1);
+    vassert(g.read() >= 10, 1);
     drop(g);
     merge();
 }
